@@ -468,7 +468,7 @@ fn with_budget(try_tok: &str, k: Option<usize>, nb: Option<usize>) -> String {
 
 /// a random scenario: registrations + formula building; returns (n, tokens, number of slots)
 fn random_prefix(rng: &mut Rng, stats: &mut Stats, maxlen: usize, nmax: usize) -> (usize, Vec<String>, usize) {
-    let n = if rng.chance(1, 6) { rng.range(6, nmax.max(6)) } else { rng.range(1, 5.min(nmax)) };
+    let n = if rng.chance(1, 4) { rng.range(6, nmax.max(6)) } else { rng.range(1, 5.min(nmax)) };
     let mut order: Vec<usize> = (0..n).collect();
     rng.shuffle(&mut order);
     let mut toks: Vec<String> = Vec::new();
@@ -589,6 +589,29 @@ fn random_prefix(rng: &mut Rng, stats: &mut Stats, maxlen: usize, nmax: usize) -
         toks.push(format!("W:{}", nslots - 1));
         toks.push(format!("G:{}", nslots - 1));
         stats.hit("obs_wmc_of_iff_with_complement");
+    }
+    // a sub-diagram shared by parents at different depths: ite(z1, g, ite(z2, g, g2)) - whatever traverses the diagram
+    // (counts, gradients) must handle a node reached along paths of unequal length
+    if nslots >= 2 && registered.len() >= 2 && rng.chance(1, 3) {
+        let g = rng.below(nslots);
+        let g2 = rng.below(nslots);
+        let z1 = *rng.pick(&registered);
+        let z2 = *rng.pick(&registered);
+        let b = nslots;
+        toks.push(format!("l:{}:1", z2)); // b
+        toks.push(format!("l:{}:0", z2)); // b+1
+        toks.push(format!("a:{}:{}", b, g)); // b+2
+        toks.push(format!("a:{}:{}", b + 1, g2)); // b+3
+        toks.push(format!("o:{}:{}", b + 2, b + 3)); // b+4 = ite(z2, g, g2)
+        toks.push(format!("l:{}:1", z1)); // b+5
+        toks.push(format!("l:{}:0", z1)); // b+6
+        toks.push(format!("a:{}:{}", b + 5, g)); // b+7
+        toks.push(format!("a:{}:{}", b + 6, b + 4)); // b+8
+        toks.push(format!("o:{}:{}", b + 7, b + 8)); // b+9
+        nslots += 10;
+        toks.push(format!("W:{}", nslots - 1));
+        toks.push(format!("G:{}", nslots - 1));
+        stats.hit("obs_shared_subdiagram_at_two_depths");
     }
     // weighted counts relative to the group constraint
     if let Some(g) = group_slot {
